@@ -59,7 +59,8 @@ def set_field(np, s, field, value):
     if field == "config":
         s.config = (str(value[0]), int(value[1]))
     elif field == "order":
-        s.order = [float(x) for x in value]
+        # integer-valued order parameters: even values are stored as Python ints, odd ones as floats
+        s.order = [int(x) if int(x) % 2 == 0 else float(x) for x in value]
     elif field == "velrev":
         s.vel_rev = bool(value)
     elif field == "ekin":
@@ -164,6 +165,10 @@ def op_tokens(op):
         return f"ext {op[1]} {op[2]}"
     if k == "del":
         return f"del {op[1]} {op[2]}"
+    if k == "cpa":
+        return f"cpa {op[1]} {op[2]} {op[3]}"
+    if k == "empty":
+        return f"empty {op[1]} {opt(op[2])} {op[3]}"
     raise KeyError(k)
 
 
@@ -241,7 +246,11 @@ class Real:
         return " ; ".join(toks)
 
     def line(self):
-        return " ".join(self.log) + " | " + self.state()
+        try:
+            return " ".join(self.log) + " | " + self.state()
+        except Exception as e:  # noqa: BLE001  — objects so broken that they cannot be dumped
+            self.bad("C15:op-raises", f"the paths cannot be read back: {type(e).__name__}: {e}")
+            return " ".join(self.log) + " | undumpable:" + type(e).__name__
 
     def bad(self, sig, what):
         self.fails.append((sig, what))
@@ -250,20 +259,87 @@ class Real:
     def _fits(self, p):
         return p.maxlen is None or len(p.phasepoints) <= p.maxlen
 
-    def _scratch_mutation_leaves_state(self, scratch, sig, what):
-        """re-assign every field of every frame of the throw-away path `scratch`; nothing reachable
-        from the program's paths may change"""
+    MUT = (("config", (99, 99)), ("order", [77, 78]), ("velrev", None), ("ekin", 91), ("vpot", 92),
+           ("pos", 93), ("vel", 94), ("box", 95), ("temp", 96))
+
+    def _mutate_all(self, s):
+        for f, v in self.MUT:
+            set_field(self.np, s, f, (not s.vel_rev) if f == "velrev" else v)
+
+    def snapshot(self, p):
+        """attributes, frame identities and frame values of one path (for 'does not modify its argument')"""
+        return (p.maxlen, p.status, p.generated, p.path_number, p.weights, p.weight, p.time_origin,
+                id(p.phasepoints), [id(s) for s in p.phasepoints], self.state_of(p))
+
+    def _scratch_mutation_leaves_state(self, scratch, sig, what, make=None, sources=()):
+        """(result → sources) re-assign every field of every frame of the throw-away path `scratch`, then grow and
+        shrink its frame list: nothing reachable from the program's paths may change;
+        (sources → result) re-assign every field of every frame of the source paths (restored afterwards): a second
+        throw-away result `make()` must keep its values."""
         before = self.state()
         shared = {id(s) for p in self.paths for s in p.phasepoints}
         for s in scratch.phasepoints:
             if id(s) in shared:
                 self.bad(sig, what + ": a frame object of the result is a frame object of an existing path")
                 return
-            for f, v in (("config", (99, 99)), ("order", [77, 78]), ("velrev", not s.vel_rev), ("ekin", 91),
-                         ("vpot", 92), ("pos", 93), ("vel", 94), ("box", 95), ("temp", 96)):
-                set_field(self.np, s, f, v)
+            self._mutate_all(s)
+        if any(scratch.phasepoints is p.phasepoints for p in self.paths):
+            self.bad(sig, what + ": the result holds the frame LIST object of an existing path")
+            return
+        extra = self.System()
+        scratch.phasepoints.append(extra)
+        scratch.phasepoints.insert(0, extra)
+        del scratch.phasepoints[0]
+        if scratch.phasepoints:
+            scratch.phasepoints.pop()
+        for a, v in (("status", "zz"), ("time_origin", 987), ("maxlen", 654), ("generated", ("zz", 1)),
+                     ("path_number", 321), ("weights", (9.0,)), ("weight", 9.0)):
+            setattr(scratch, a, v)
         if self.state() != before:
             self.bad(sig, what)
+            return
+        if make is not None:
+            other = make()
+            snap = self.state_of(other)
+            for src in sources:
+                saved = [(s, dict(s.__dict__)) for s in src.phasepoints]
+                for s, _ in saved:
+                    self._mutate_all(s)
+                changed = self.state_of(other) != snap
+                for s, d in saved:
+                    s.__dict__.clear()
+                    s.__dict__.update(d)
+                if changed:
+                    self.bad(sig, what + " (assigning fields of the SOURCE frames changed the result)")
+                    return
+            if self.state() != before:
+                raise AssertionError("harness: restoring the source frames failed")
+
+    def fresh_objects_are_pristine(self):
+        """class-level mutable attributes / shared defaults: a new System / Path must not see what was done to
+        other instances (in place, on their default containers)"""
+        s1 = self.System()
+        try:
+            s1.temperature["x"] = 1.0
+            s1.order.append(5.0)
+            if getattr(s1.box, "size", 0):
+                s1.box.flat[0] = 9.0
+        except Exception:  # noqa: BLE001
+            pass
+        p1 = self.Path()
+        p1.phasepoints.append(s1)
+        s2, p2 = self.System(), self.Path()
+        ok = (s2.temperature == {} and len(s2.order) == 1 and s2.order[0] != s2.order[0] and s2.config == ("", -1)
+              and s2.vel_rev is False and s2.ekin is None and s2.vpot is None
+              and (not getattr(s2.box, "size", 0) or float(abs(s2.box).sum()) == 0.0)
+              and s2.pos.size == 0 and s2.vel.size == 0
+              and p2.phasepoints == [] and p2.length == 0 and p2.status == "" and p2.generated is None
+              and p2.path_number is None and p2.weights is None and p2.weight == 0.0 and p2.time_origin == 0)
+        e = p1.empty_path(maxlen=7, time_origin=3)
+        ok = ok and e.length == 0 and e.maxlen == 7 and e.time_origin == 3 and type(e) is type(p1) and p1.length == 1
+        if not ok:
+            self.bad("C15:shared-class-state", "a new System()/Path()/empty_path() carries state of other instances "
+                     "(or does not start from the documented defaults)")
 
     def _check_paste(self, back, forw, ov, ml, new):
         nb, nf = len(back.phasepoints), len(forw.phasepoints)
@@ -308,8 +384,8 @@ class Real:
 
     def _check_reverse(self, p, ofd, rv, new, before):
         of = None if ofd is None else LinOrder(*ofd)
-        if self.state_of(p) != before:
-            self.bad("C15:reverse-mutates-original", "reverse changed the frames of the path it was called on")
+        if self.snapshot(p) != before:
+            self.bad("C15:reverse-mutates-original", "reverse changed the path it was called on")
         fits = self._fits(p)
         self.branches.append("rev:fits" if fits else "rev:trunc")
         want = self._expected_reverse(p, of, rv)
@@ -336,12 +412,15 @@ class Real:
                 self.bad("C15:reverse-twice", "reversing twice does not restore the frames")
         # independence of the reversed copy
         self._scratch_mutation_leaves_state(p.reverse(of, rv), "C15:reverse-not-independent",
-                                            "assigning fields of a reversed path's frames changed another path")
+                                            "assigning fields of a reversed path's frames changed another path",
+                                            make=lambda: p.reverse(of, rv), sources=[p])
 
     def state_of(self, p):
         return [sys_fields(s) for s in p.phasepoints]
 
-    def _check_copy(self, p, new):
+    def _check_copy(self, p, new, snap):
+        if self.snapshot(p) != snap:
+            self.bad("C15:copy-modifies-original", "copy() changed the path it was called on")
         fits = self._fits(p)
         self.branches.append("copy:fits" if fits else "copy:trunc")
         want = self.state_of(p)
@@ -353,7 +432,8 @@ class Real:
             if getattr(new, a) != getattr(p, a):
                 self.bad("C15:copy-values", f"copy() does not carry {a}")
         self._scratch_mutation_leaves_state(p.copy(), "C15:copy-not-independent",
-                                            "assigning fields of a copied path's frames changed the original (or another path)")
+                                            "assigning fields of a copied path's frames changed the original (or another path)",
+                                            make=p.copy, sources=[p])
 
     # ---- ops
     def step(self, op):
@@ -381,6 +461,7 @@ class Real:
             p, q = P[op[1]], P[op[2]]
             n0 = len(p.phasepoints)
             old = list(p.phasepoints)
+            snapq = self.snapshot(q)
             p += q
             assert P[op[1]] is p
             self.log.append("iadd")
@@ -389,23 +470,30 @@ class Real:
                 self.branches.append("iadd:full" if room == len(q.phasepoints) else "iadd:trunc")
                 if p.phasepoints[:n0] != old or self.state_of(p)[n0:] != self.state_of(q)[:room]:
                     self.bad("C15:iadd-values", "self += other does not append other's frames (up to the limit)")
-                t = self.Path(maxlen=None)
-                t += q
-                self._scratch_mutation_leaves_state(t, "C15:iadd-not-independent",
-                                                    "assigning fields of frames added by += changed the source path")
+                if self.snapshot(q) != snapq:
+                    self.bad("C15:iadd-modifies-other", "self += other changed `other`")
+
+                def mk_t():
+                    t = self.Path(maxlen=None)
+                    t += q
+                    return t
+                self._scratch_mutation_leaves_state(mk_t(), "C15:iadd-not-independent",
+                                                    "assigning fields of frames added by += changed the source path",
+                                                    make=mk_t, sources=[q])
         elif k == "copy":
             if not ok(op[1]):
                 return self.log.append("skip")
+            snap = self.snapshot(P[op[1]])
             new = P[op[1]].copy()
             if self.check:
-                self._check_copy(P[op[1]], new)
+                self._check_copy(P[op[1]], new, snap)
             P.append(new)
             self.log.append("copy")
         elif k == "rev":
             if not ok(op[1]):
                 return self.log.append("skip")
             p = P[op[1]]
-            before = self.state_of(p)
+            before = self.snapshot(p)
             of = None if op[2] is None else LinOrder(*op[2])
             new = p.reverse(of, bool(op[3]))
             if self.check:
@@ -416,6 +504,7 @@ class Real:
             if not (ok(op[1]) and ok(op[2])):
                 return self.log.append("skip")
             back, forw = P[op[1]], P[op[2]]
+            snaps = (self.snapshot(back), self.snapshot(forw))
             try:
                 new = self.paste_paths(back, forw, overlap=bool(op[3]), maxlen=op[4])
             except Exception as e:  # noqa: BLE001
@@ -426,7 +515,17 @@ class Real:
                     self.bad("C15:paste-raises", f"paste_paths raised {type(e).__name__}: {e}")
                 return None
             if self.check:
+                if (self.snapshot(back), self.snapshot(forw)) != snaps:
+                    self.bad("C15:paste-modifies-argument", "paste_paths changed one of the two segments it was given")
                 self._check_paste(back, forw, bool(op[3]), op[4], new)
+                # the pasted path shares frame objects by design, but it must own its frame list and attributes
+                scratch = self.paste_paths(back, forw, overlap=bool(op[3]), maxlen=op[4])
+                before = self.state()
+                scratch.phasepoints.append(self.System())
+                del scratch.phasepoints[:1]
+                scratch.time_origin, scratch.maxlen, scratch.status = 987, 654, "zz"
+                if self.state() != before:
+                    self.bad("C15:paste-shares-list", "changing the frame list / attributes of a pasted path changed a segment")
             P.append(new)
             self.log.append("paste")
         elif k == "set":
@@ -478,6 +577,31 @@ class Real:
             p, q = P[op[1]], P[op[2]]
             p.phasepoints = p.phasepoints[:-1] + q.phasepoints
             self.log.append("ext")
+        elif k == "cpa":
+            if not (ok(op[1]) and ok(op[2]) and 0 <= op[3] < len(P[op[2]].phasepoints)):
+                return self.log.append("skip")
+            src = P[op[2]].phasepoints[op[3]]
+            want = sys_fields(src)
+            c = src.copy()
+            if self.check:
+                if c is src or sys_fields(c) != want or sys_fields(src) != want:
+                    self.bad("C15:system-copy", "System.copy() is not a new object with the same field values")
+                else:
+                    before = self.state()
+                    t = src.copy()
+                    self._mutate_all(t)
+                    if self.state() != before:
+                        self.bad("C15:system-copy", "assigning fields of a System copy changed another System")
+            self.log.append(str(P[op[1]].append(c)))
+        elif k == "empty":
+            if not ok(op[1]):
+                return self.log.append("skip")
+            e = P[op[1]].empty_path(maxlen=op[2], time_origin=op[3])
+            if self.check and (e.length != 0 or e.maxlen != op[2] or e.time_origin != op[3]
+                               or e.phasepoints is P[op[1]].phasepoints):
+                self.bad("C15:empty-path", "empty_path() is not a new empty path with the requested limit / time origin")
+            P.append(e)
+            self.log.append("empty")
         elif k == "del":
             if not (ok(op[1]) and 0 <= op[2] < len(P[op[1]].phasepoints)):
                 return self.log.append("skip")
@@ -491,7 +615,16 @@ class Real:
 def run_program(mods, prog, check=True):
     m = Real(mods, check)
     for op in prog:
-        m.step(tuple(op))
+        try:
+            m.step(tuple(op))
+        except Exception as e:  # noqa: BLE001  — never let changed code crash the harness: report the input
+            m.log.append("raised:" + type(e).__name__)
+            m.bad("C15:op-raises", f"{op[0]} raised {type(e).__name__}: {e}")
+    if check:
+        try:
+            m.fresh_objects_are_pristine()
+        except Exception as e:  # noqa: BLE001
+            m.bad("C15:shared-class-state", f"creating fresh objects raised {type(e).__name__}: {e}")
     return m
 
 
@@ -517,7 +650,7 @@ def shrink(mods, prog, sig):
 def rand_vals(rng):
     return {"config": (rng.randint(0, 3), rng.randint(0, 9)),
             "order": [rng.randint(-1, 4) for _ in range(rng.choice((1, 1, 1, 2, 3)))],
-            "velrev": rng.random() < 0.3, "ekin": rng.choice((None, 1, 2, 3)), "vpot": rng.choice((None, -1, -2)),
+            "velrev": rng.random() < 0.3, "ekin": rng.choice((None, 0, 1, 2, 3)), "vpot": rng.choice((None, 0, -1, -2)),
             "pos": rng.randint(-3, 3), "vel": rng.randint(-3, 3), "box": rng.randint(1, 5), "temp": rng.randint(0, 5)}
 
 
@@ -530,7 +663,7 @@ def rand_field(rng):
     if f == "velrev":
         return f, rng.random() < 0.5
     if f in ("ekin", "vpot"):
-        return f, rng.choice((None, 4, 5, 6))
+        return f, rng.choice((None, 0, 4, 5, 6))
     return f, rng.randint(-5, 5)
 
 
@@ -542,8 +675,8 @@ def rand_intf(rng):
     return list(rng.choice(INTFS[:8] if rng.random() < 0.9 else INTFS))
 
 
-def plain_vals(o, idx=0):
-    return {"config": (0, idx), "order": [o], "velrev": False, "ekin": None, "vpot": None,
+def plain_vals(o, idx=0, velrev=False):
+    return {"config": (0, idx), "order": [o], "velrev": velrev, "ekin": None, "vpot": None,
             "pos": o, "vel": 1, "box": 1, "temp": 0}
 
 
@@ -553,7 +686,7 @@ def gen_history(rng):
     prog = [("new", rng.choice((None, 100)), 0), ("new", None, 0), ("new", None, 0)]
     n = rng.randint(1, 5)
     for k in range(n):
-        prog.append(("sys", 0, plain_vals(rng.randint(-1, 4), k)))
+        prog.append(("sys", 0, plain_vals(rng.randint(-1, 4), k, rng.random() < 0.5)))
     nd = rng.randint(1, 3)
     for k in range(nd):
         prog.append(("sys", 1, plain_vals(rng.randint(-1, 4), 10 + k)))
@@ -608,6 +741,25 @@ def gen_history(rng):
                 prog.append(("sys", 0, plain_vals(rng.randint(-1, 4), 30)))
         cls(0)
     return prog
+
+
+def systematic_pastes(nmax):
+    """every (|back|, |forw|, overlap) up to nmax × explicit limit at total−1 / total / total+1 / 0 / 1 / 2 / None ×
+    path limits (None,None) / equal / different / one None; mixed velocity flags; followed by reverse and copy
+    of the pasted path"""
+    for nb in range(0, nmax + 1):
+        for nf in range(0, nmax + 1):
+            for ov in (False, True):
+                tot = nb + nf - (1 if ov and nf else 0)
+                for ml in sorted({None, tot - 1, tot, tot + 1, 0, 1, 2}, key=lambda x: (x is not None, x)):
+                    for (mb, mf) in ((None, None), (tot, tot), (tot + 1, tot - 1), (None, tot), (2, 100)):
+                        prog = [("new", None, nb), ("new", None, 0)]
+                        prog += [("sys", 0, plain_vals(k, k, k % 2 == 0)) for k in range(nb)]
+                        prog += [("sys", 1, plain_vals(10 + k, 10 + k, k % 3 == 0)) for k in range(nf)]
+                        prog += [("pset", 0, "maxlen", mb), ("pset", 1, "maxlen", mf), ("paste", 0, 1, ov, ml)]
+                        if not (ml is None and mb != mf and None in (mb, mf)):
+                            prog += [("rev", 2, None, True), ("copy", 2), ("classify", 2, 1, [0, 1, 2])]
+                        yield prog
 
 
 def systematic_histories(maxlen):
@@ -665,7 +817,7 @@ def gen_program(rng, nops):
         if rng.random() < 0.03:
             i = n + rng.randint(0, 2)   # ill-formed
         kind = rng.choice(("paste", "paste", "paste", "rev", "rev", "copy", "copy", "iadd", "iadd", "app", "sys",
-                           "set", "set", "seti", "pset", "new", "classify", "classify", "classify", "repl", "ext", "del"))
+                           "set", "set", "seti", "pset", "new", "classify", "classify", "classify", "repl", "ext", "del", "cpa", "empty"))
         if kind == "new":
             ml = rng.choice(MAXLENS)
             prog.append(("new", ml, rng.randint(-5, 5)))
@@ -723,6 +875,17 @@ def gen_program(rng, nops):
             prog.append(("seti", i, k, rng.randint(5, 9)))
         elif kind == "classify":
             prog.append(("classify", i, rng.randint(-1, 4), rand_intf(rng)))
+        elif kind == "cpa":
+            k = rng.randrange(lens[j]) if lens[j] and rng.random() < 0.95 else lens[j] + rng.randint(0, 1)
+            prog.append(("cpa", i, j, k))
+            if i < n and k < lens[j] and room(i):
+                lens[i] += 1
+        elif kind == "empty":
+            ml = rng.choice(MAXLENS)
+            prog.append(("empty", i, ml, rng.randint(-3, 3)))
+            if i < n:
+                lens.append(0)
+                mls.append(ml)
         elif kind == "repl":
             k = rng.randrange(lens[i]) if i < n and lens[i] and rng.random() < 0.95 else rng.randint(0, 6)
             l = rng.randrange(lens[j]) if lens[j] and rng.random() < 0.95 else rng.randint(0, 6)
@@ -743,7 +906,7 @@ def gen_program(rng, nops):
                 if i < n:
                     mls[i] = v
             elif f in ("generated", "pathnum", "weights"):
-                v = rng.choice((None, 1, 2, 3))
+                v = rng.choice((None, 0, 1, 2, 3))
             else:
                 v = rng.randint(0, 4)
             prog.append(("pset", i, f, v))
@@ -847,6 +1010,7 @@ def run(ctx):
     progs = [gen_program(rng, rng.randint(1, 12)) for _ in range(nprog)]
     progs += [gen_history(rng) for _ in range(2500 if ctx.quick else 40000)]
     progs += list(systematic_histories(3 if ctx.quick else 4))
+    progs += list(systematic_pastes(3 if ctx.quick else 5))
     lines, code_out = [], []
     shrunk = set()
     for prog in progs:
@@ -868,9 +1032,12 @@ def run(ctx):
                 what = next((w for s_, w in run_program(mods, small).fails if s_ == sig), what)
             ctx.fail(sig, what, {"kind": "prog", "prog": [list(op) for op in small],
                                  "line": "prog " + " ".join(op_tokens(op) for op in small)})
+        if len(ctx.fails) >= 20:   # enough failing inputs: do not let badly broken code run into the time limit
+            ctx.extra["programs_stopped_early_after"] = len(lines)
+            break
     if have_model:
         out = ctx.driver(lines)
-        for prog, c, mo in zip(progs, code_out, out):
+        for prog, c, mo in zip(progs[:len(lines)], code_out, out):
             if c != mo:
                 ctx.disagree({"fn": "op program", "prog": " ".join(op_tokens(op) for op in prog)}, c, mo)
     for k in (0, 1):
@@ -900,10 +1067,13 @@ def run(ctx):
     code_c = []
     last_ops, p = None, None
     for ops, t in cls_cases:
-        if ops is not last_ops:
-            p = mk(Path, System, ops)
-            last_ops = ops
-        code_c.append(code_cls(p, t))
+        try:
+            if ops is not last_ops:
+                p = mk(Path, System, ops)
+                last_ops = ops
+            code_c.append(code_cls(p, t))
+        except Exception as e:  # noqa: BLE001
+            code_c.append(f"min=raised max=raised chk=raised:{type(e).__name__}")
     if have_model:
         out = ctx.driver([f"cls {lst(t)} {lst(ops)}" for ops, t in cls_cases])
     for k, (ops, t) in enumerate(cls_cases):
@@ -923,8 +1093,11 @@ def run(ctx):
                 se_cases.append((ops, l, r))
     code_s = []
     for ops, l, r in se_cases:
-        p = mk(Path, System, ops)
-        code_s.append((code_side(p, "sp", l, r), code_side(p, "ep", l, r)))
+        try:
+            p = mk(Path, System, ops)
+            code_s.append((code_side(p, "sp", l, r), code_side(p, "ep", l, r)))
+        except Exception as e:  # noqa: BLE001
+            code_s.append(("raised:" + type(e).__name__, "raised:" + type(e).__name__))
     if have_model:
         outs = ctx.driver([f"sp {l} {opt(r)} {lst(ops)}" for ops, l, r in se_cases])
         oute = ctx.driver([f"ep {l} {opt(r)} {lst(ops)}" for ops, l, r in se_cases])
@@ -947,6 +1120,10 @@ def run(ctx):
         "object identity is tracked for System objects and for the `order` list object; the arrays pos/vel/box and the "
         "temperature dict are only re-assigned, never mutated in place",
         "the order function passed to reverse reads only the field values of the System it is given",
+        "object-history checks (one long-lived Path classified repeatedly, fresh System()/Path() pristine after other "
+        "instances were changed in place, argument purity of paste/copy/reverse/+=, result↔source aliasing in both "
+        "directions) are tie-only: the Lean model is functional and has no hidden state",
+        "order=None is not modelled (System() starts with [-nan]; nothing in infretis assigns None)",
     ]]
 
 
